@@ -39,7 +39,9 @@ OLD_SIZE = 5000
 # exists, the script's own status / signal}; if there is any fault the command fails with one of those statuses and
 # the target stays as it was; otherwise the target becomes $3 (even when empty) if $3 exists, else stdout if
 # non-empty, else it is removed.
-O_, F_, W_, E_ = ("none", "data"), ("none", "empty", "data", "deleted", "append"), ("none", "new", "old"), ("0", "5", "kill9", "killTERM")
+O_, F_, W_, E_ = ("none", "data"), ("none", "empty", "data", "deleted", "append", "dir"), ("none", "new", "old"), ("0", "5", "kill9", "killTERM")
+# f=dir: the script makes $3 a DIRECTORY (and then fails): only combined with o=none, w=none, e=5 -- the failure has to be
+# reported with the script's status and the directory removed like any other temporary output.
 # f=append: the script builds $3 with `>>` (legitimate: redo promises that $3 does not exist when the script starts).  It
 # differs from f=data only when a temporary file is lying around from an earlier, killed build: the prior states
 # "stale-tmp" (never built) and "generated+stale-tmp" put one there.
@@ -62,6 +64,9 @@ def make_behaviour(o, f, w, e):
         L.append(src + ' > "$3"')
     elif f == "append":
         L.append(src + ' >> "$3"')
+    elif f == "dir":
+        L.append('mkdir "$3"')
+        L.append(src + ' > "$3/inside"')
     elif f == "deleted":
         L.append(src + ' > "$3"')
         L.append('rm -f "$3"')
@@ -99,7 +104,8 @@ def make_behaviour(o, f, w, e):
     return "\n".join(L), ("ok-absent", [0], None)
 
 
-BEHAVIOURS = {behaviour_name(o, f, w, e): make_behaviour(o, f, w, e) for o in O_ for f in F_ for w in W_ for e in E_}
+BEHAVIOURS = {behaviour_name(o, f, w, e): make_behaviour(o, f, w, e) for o in O_ for f in F_ for w in W_ for e in E_
+              if f != "dir" or (o, w, e) == ("none", "none", "5")}
 
 
 def writes_target_itself(b):
@@ -107,7 +113,7 @@ def writes_target_itself(b):
 
 
 def has_output(b):
-    return "o=data" in b or "f=data" in b or "f=append" in b or "f=deleted" in b or ",w=new" in b or ",w=old" in b
+    return "o=data" in b or "f=data" in b or "f=append" in b or "f=deleted" in b or "f=dir" in b or ",w=new" in b or ",w=old" in b
 
 
 _W = {}
@@ -129,7 +135,10 @@ def programs(tier):
     for b in BEHAVIOURS:
         if tier == "quick" and "e=killTERM" in b:
             continue      # quick: one signal (SIGKILL); thorough: also SIGTERM
-        for prior in ("absent", "generated", "stale-tmp", "generated+stale-tmp"):
+        for prior in ("absent", "generated", "stale-tmp", "generated+stale-tmp", "directory"):
+            if prior == "directory" and not (",w=none," in b and b.endswith("e=0") and ("o=data" in b or "f=data" in b or "f=empty" in b)
+                                             and "f=append" not in b):
+                continue     # the target path is a directory: interesting for scripts that exit 0 with output -- installing it must fail cleanly
             if "stale-tmp" in prior and not (",w=none," in b and b.endswith("e=0")):
                 continue     # a leftover temporary file matters to the scripts that succeed without touching $1
             if "stale-tmp" not in prior and "f=append" in b:
@@ -177,6 +186,13 @@ def run_program(prog):
             if r["rc"] != 0 or _state(target, old, new) != "old":
                 raise MachineryError("could not produce the prior generated target: " + r["err"][-300:])
         prior_state = "old" if prior.startswith("generated") else "absent"
+        if prior == "directory":
+            target.mkdir()
+            (target / "keep").write_text("the user's\n")
+            prior_state = "dir"
+            if expect.startswith("ok"):
+                # the output cannot replace a directory: the command has to fail, leave the directory alone and clean up
+                expect, statuses = "fail-dir", None
         if "stale-tmp" in prior:
             # what a build killed while its script was writing $3 leaves behind
             (p / "t.redo.tmp").write_bytes(b"partial output of a build that was killed\n")
@@ -202,7 +218,7 @@ def run_program(prog):
         res["final"] = final
         V = res["violations"]
         judged_bytes = not writes_target_itself(b)
-        want_final = {"ok-new": "new", "ok-absent": "absent", "fail": prior_state}[expect]
+        want_final = {"ok-new": "new", "ok-absent": "absent", "fail": prior_state, "fail-dir": "dir"}[expect]
         # ---- every instant -----------------------------------------------------------------------
         if judged_bytes:
             switched = False
@@ -221,7 +237,12 @@ def run_program(prog):
                 V.append(("final-target-wrong", "-", "target", f"want {want_final}, got {final}"))
         # ---- exit status -------------------------------------------------------------------------
         m = re.findall(r"\(exit (-?\d+)\)", r["err"])
-        if expect == "fail":
+        if expect == "fail-dir":
+            if r["rc"] == 0:
+                V.append(("exit-0-on-failure", "-", None, r["err"][-200:]))
+            if not (target / "keep").exists():
+                V.append(("directory-target-damaged", "-", "target", "the file inside the directory is gone"))
+        elif expect == "fail":
             if r["rc"] == 0:
                 V.append(("exit-0-on-failure", "-", None, r["err"][-200:]))
             elif len(m) != 1 or int(m[0]) not in statuses:
@@ -238,7 +259,7 @@ def run_program(prog):
         muts = [(e3.norm_call(c.call), "src" if c.path == tp else "dst") for c in calls
                 if c.redo and c.call != "KILL" and (c.path == tp or c.path2 == tp)]
         res["redo_mutations_of_target"] = muts
-        allowed = {"ok-new": [("rename", "dst")], "ok-absent": [("unlink", "src")], "fail": []}[expect]
+        allowed = {"ok-new": [("rename", "dst")], "ok-absent": [("unlink", "src")], "fail": [], "fail-dir": [("rename", "dst")]}[expect]
         if muts != allowed and not (expect == "ok-absent" and muts == []):
             V.append(("redo-mutated-target-unexpectedly", muts[0][0] if muts else "-", "target",
                       f"redo processes issued {muts} on the target path; allowed exactly {allowed}"))
